@@ -887,6 +887,33 @@ fn programs(which: Which, tier: Tier) -> Vec<String> {
             }
         }
     }
+    // two-parameter calibrations: fixed and variable parameters in every order, parameters used in
+    // every expression-bearing position, passed on to a nested two-parameter calibration
+    let pbodies = ["RX(%s) q", "RX(%t) q", "RX(%s-%t) q", "DELAY q \"f\" %t", "PULSE q \"f\" flat(duration: %s, iq: %t)", "RAW-CAPTURE q \"f\" %t ro", "SHIFT-PHASE q \"f\" %s*2", "INNER(1, %t, %s) q", "INNER(%t, 3, %s) q"];
+    for (head, invs) in [
+        ("DEFCAL U(%s, %t) q", vec!["U(0.5, 1.5) 3", "U(2, 0.5) 3"]),
+        ("DEFCAL U(2, %t) q", vec!["U(2, 0.5) 3", "U(2, 2) 3"]),
+        ("DEFCAL U(%s, 2) q", vec!["U(0.5, 2) 3", "U(2, 2) 3"]),
+        ("DEFCAL U(2, %t) 3", vec!["U(2, 0.5) 3"]),
+    ] {
+        for a in pbodies {
+            if (a.contains("%s") && !head.contains("%s")) || (a.contains("%t") && !head.contains("%t")) {
+                continue;
+            }
+            for b in pbodies.iter().chain(std::iter::once(&"")) {
+                if (b.contains("%s") && !head.contains("%s")) || (b.contains("%t") && !head.contains("%t")) {
+                    continue;
+                }
+                if tier == Tier::Quick && !b.is_empty() && !(a.starts_with("INNER") || b.starts_with("INNER")) {
+                    continue;
+                }
+                let body = if b.is_empty() { format!("    {a}\n") } else { format!("    {a}\n    {b}\n") };
+                for inv in &invs {
+                    progs.push(format!("{head}:\n{body}DEFCAL INNER(1, %x, %y) q:\n    SHIFT-PHASE q \"f\" %x\n    SHIFT-FREQUENCY q \"f\" %y\nDEFCAL INNER(%x, 3, %y) q:\n    RZ(%x/%y) q\nH 2\n{inv}\nH 4\n"));
+                }
+            }
+        }
+    }
     // declarations at the start / middle / end of bodies, nested; bodies that expand to nothing
     for shape in [
         "DEFCAL X 0:\n    DECLARE foo BIT\n    Y 0\n    DECLARE bar BIT\nDEFCAL Y 0:\n    Z 0\nX 0\n",
@@ -997,7 +1024,7 @@ pub static C17: PropDef = PropDef {
     id: "C17",
     level: "exploration",
     engine: "sweep",
-    rule: "programs = one gate calibration whose body is every ordered choice of 1-2 instructions from a 16-instruction menu that puts the formal qubit / parameter into every position that can hold one (gate, MEASURE, RESET, DELAY, FENCE, PULSE, CAPTURE, RAW-CAPTURE, SET-PHASE, SHIFT-FREQUENCY, SWAP-PHASES, DECLARE, nested gates) + a nested calibration with a DECLARE, x 3-5 invocation patterns; one measure calibration with 1-2 instructions from an 11-instruction menu using the formal target in captures, classical operands, expressions and LOAD-MEMORY, x 4 head/invocation patterns; 7 nested shapes. Oracle: body and hoisted declarations = reference expansion, fixpoint, both entry points and per-instruction expand agree. non-trivial = program with a calibration (distinct by text)",
+    rule: "programs = one gate calibration whose body is every ordered choice of 1-2 instructions from a 16-instruction menu that puts the formal qubit / parameter into every position that can hold one (gate, MEASURE, RESET, DELAY, FENCE, PULSE, CAPTURE, RAW-CAPTURE, SET-PHASE, SHIFT-FREQUENCY, SWAP-PHASES, DECLARE, nested gates) + a nested calibration with a DECLARE, x 3-5 invocation patterns; two-parameter calibrations with fixed and variable parameters in every order (4 heads x 9 bodies using the parameters in gate / DELAY / waveform / RAW-CAPTURE / frame-update positions and passing them on to nested two-parameter calibrations); one measure calibration with 1-2 instructions from an 11-instruction menu using the formal target in captures, classical operands, expressions and LOAD-MEMORY, x 4 head/invocation patterns; 7 nested shapes. Oracle: body and hoisted declarations = reference expansion, fixpoint, both entry points and per-instruction expand agree. non-trivial = program with a calibration (distinct by text)",
     assumptions: ASSUME,
     run: |ctx| cal_run(ctx, "C17", Which::C17),
     replay: |c| cal_replay("C17", Which::C17, c),
